@@ -26,7 +26,7 @@ type Scenario struct {
 	N         int                 `json:"n,omitempty"`
 	COE       bool                `json:"coe,omitempty"`
 	Dec       map[string]string   `json:"dec,omitempty"`   // function id (or id#arg0) -> outcome kind
-	PanicKind string              `json:"panic,omitempty"` // string|error|runtime|struct
+	PanicKind string              `json:"panic,omitempty"` // string|error|runtime|struct|panicerror|uncmp
 	Colls     [][]uint64          `json:"colls,omitempty"`
 	Maps      []map[string]uint64 `json:"maps,omitempty"`
 	Cancel    string              `json:"cancel,omitempty"` // "", "pre", "thread"
@@ -116,9 +116,19 @@ type panicStruct struct {
 	B string
 }
 
+// panicUncmp is an error value of a type that cannot be compared with ==.
+type panicUncmp struct {
+	ID   string
+	Tags []string
+}
+
+func (p panicUncmp) Error() string { return "uncomparable-panic(" + p.ID + ")" }
+
 // PanicValue returns the value injected for a panicking function.
 func (s *Scenario) PanicValue(id string) any {
 	switch s.PanicKind {
+	case "uncmp":
+		return panicUncmp{ID: id, Tags: []string{"a", id}}
 	case "error":
 		return errors.New("panic-error(" + id + ")")
 	case "struct":
@@ -322,9 +332,10 @@ func (s *Scenario) Body() (func(), *Run) {
 	r.RetVC = make([]vs.VC, n)
 	return func() {
 		probe.H = hooks{r}
-		var base context.Context = context.Background()
+		// contexts descend from a live cancellable standard-library context (see vs.LiveParent)
+		var base context.Context = vs.LiveParent()
 		if s.Cancel != "" || s.usesCancelDecision() {
-			c, cf := vs.WithCancel(context.Background(), "dir")
+			c, cf := vs.WithCancel(vs.LiveParent(), "dir")
 			base = c
 			r.cancel = cf
 		}
@@ -556,13 +567,16 @@ func sameArgs(a, b []uint64) bool {
 }
 
 func panicValueMatches(got, want any) bool {
-	if got == want {
-		return true
-	}
-	ge, ok1 := got.(error)
-	we, ok2 := want.(error)
-	if ok1 && ok2 {
-		return ge == we
+	cmp := func(v any) bool { return v == nil || reflect.TypeOf(v).Comparable() }
+	if cmp(got) && cmp(want) {
+		if got == want {
+			return true
+		}
+		ge, ok1 := got.(error)
+		we, ok2 := want.(error)
+		if ok1 && ok2 {
+			return ge == we
+		}
 	}
 	return reflect.DeepEqual(got, want)
 }
